@@ -425,7 +425,7 @@ var rdTokens = []string{"/", "\\", ".", "..", " ", "\t", "\n", "\v", "\f", "\r",
 // the 18 structural tokens used for the deeper exhaustive level of the thorough tier
 var rdCoreTokens = []string{"/", "\\", ".", "..", " ", "\t", "\n", "\v", "\f", "\r", "\xc2\xa0", "%2f", "%5c", "@", ":", "?", "#", "a"}
 
-var rdWhitelists = [][]string{nil, {"good.com"}, {".good.com"}, {"*.good.com"}, {"good.com:8443"}, {"good.com:*"}, {"[::1]:*"}}
+var rdWhitelists = [][]string{nil, {"good.com"}, {".good.com"}, {"*.good.com"}, {"good.com:8443"}, {"good.com:*"}, {"[::1]:*"}, {".good.com", ""}, {"", ":8443"}}
 
 var rdCorpus = []string{
 	"", "/", "/foo", "/foo/bar?x=1&next=/baz#frag", "//evil.com", "/\\evil.com", "/\t/evil.com", "/\n/evil.com", "/\r\n\t/evil.com",
@@ -606,6 +606,19 @@ func init() {
 			wlField = append(wlField, hxl(wl))
 		}
 		wls := strings.Join(wlField, ";")
+		// absolute URLs WITHOUT a host (a browser takes the first path element as the host) are never on an allowed domain,
+		// whatever degenerate entries the whitelist holds (regression check for fix ce8ba56)
+		for _, wl := range [][]string{{"."}, {"*."}, {".", "*.", "", ":8443"}, {".good.com", "."}} {
+			v := redirect.NewValidator(wl)
+			for _, s := range []string{"https:///evil.com/login", "http:///evil.com", "https:////evil.com", "https://:443/evil.com", "http://:80", "https://@/evil.com", "https://user@:8443/x"} {
+				c.casen("rd.nohost|"+strings.Join(wl, ",")+"|"+s, "")
+				c.count("abs:no-host")
+				if v.IsValidRedirect(s) {
+					c.violation("C06", "an absolute redirect without a host was accepted (a browser resolves it to the first path element as host)",
+						map[string]interface{}{"redirect": s, "whitelist": wl})
+				}
+			}
+		}
 		var nodeItems []nodeCheck
 		idx := 0
 		// one string through: IsValidRedirect (empty whitelist), path.Clean, http.Redirect; C06 monitors
